@@ -6,7 +6,7 @@ it exists so that failing cases shrink structurally and replay from JSON.
 
 Model
 -----
-case = {"kind": "mod", "entry": "visit"|"load", "layout": "top" (module m) | "sub" (module p.m) | "init" (p/__init__.py),
+case = {"kind": "mod", "entry": "visit"|"load", "layout": "top" (module m) | "sub" (module p.m) | "init" (p/__init__.py) | "deep" (p.q.m) | "subinit" (p/q/__init__.py),
         "doc": docspec|None,
         "ptry": bool,                     # wrap the derived import prelude in try/except ImportError
         "body": [stmt, ...]}
@@ -28,7 +28,10 @@ stmt (field "k"):
   try     body, handlers[[stmt]], orelse|None, final|None
   for     var, body, orelse|None
   with    var|None, body
+  while   body, orelse|None ; match cases[[stmt]]   (not among the blocks the property names: what they bind is left open)
+  prop    name, getter, via, doc, parts             property getter followed by @name.setter / @name.deleter definitions
 istmt (inside __init__): sassign attrs[name], value | sann attr, ann, value|None | local | sdeep | other | stuple |
+  idef form (def / overload group / class / import / property+setter / decorated def+class nested in __init__), attrs |
   str | if | try | for | with (same shapes, bodies made of istmt)
 """
 
@@ -60,7 +63,7 @@ ANNS = ["int", "'Fwd'", "ClassVar[int]", "typing.ClassVar[int]", "list[int]", "i
 SIGS = ["", "u", "u, v=1", "*args, **kw", "u: int = 2, /, v: 'T' = None, *, w"]
 SIGS_ML = [["", "    u,", "    v=1,", ""], ["", "    *args,", ""]]  # rendered as "(" + lines + ")"
 RETS = [None, "int", "'T'"]
-TAILS = ["pass", "...", "return 1", "local", "nested", "inline"]
+TAILS = ["pass", "...", "return 1", "local", "nested", "inline", "nested_ovl"]
 BASES = ["", "()", "(Base)", "(pkg.Base, metaclass=Meta)", "ML"]
 CONDS = ["cond", "sys.version_info >= (3, 9)", "not flag", "a"]
 IMPORT_MODULES = ["os", "sys", "os.path", "pkg.sub", "pkg.sub.deep", "collections.abc", "json"]
@@ -89,6 +92,7 @@ DECOS = {
 }
 FUNC_DECOS_ANY = ["cache", "lru_cache", "unk", "unkattr"]
 FUNC_DECOS_CLASS = ["property", "staticmethod", "classmethod", "abstractmethod", "cached_property", "cp_cached_property"]
+SELF_DECOS = ["selfsetter", "selfdeleter"]  # rendered as @<name of the def>.setter / .deleter
 CLASS_DECOS = ["dataclass", "unk", "unkattr"]
 
 
@@ -139,7 +143,7 @@ def _import():
     return st.fixed_dictionaries({"k": st.just("import"), "names": st.lists(item, min_size=1, max_size=2)})
 
 
-def _from(rel: bool):
+def _from(rel: int):
     item = st.tuples(st.sampled_from(FROM_NAMES), st.one_of(st.none(), st.none(), _names())).map(list)
     names = st.one_of(st.lists(item, min_size=1, max_size=3), st.lists(item, min_size=1, max_size=3), st.just("*"))
     absolute = st.fixed_dictionaries(
@@ -148,7 +152,7 @@ def _from(rel: bool):
     if not rel:
         return absolute
     relative = st.fixed_dictionaries(
-        {"k": st.just("from"), "module": st.sampled_from(REL_MODULES), "level": st.just(1), "names": st.lists(item, min_size=1, max_size=2), "ml": st.booleans()}
+        {"k": st.just("from"), "module": st.sampled_from(REL_MODULES), "level": st.integers(1, rel), "names": st.lists(item, min_size=1, max_size=2), "ml": st.booleans()}
     )
     return st.one_of(absolute, relative)
 
@@ -192,6 +196,8 @@ def _istmt(depth: int):
         st.fixed_dictionaries({"k": st.just("sann"), "attr": _names(), "ann": st.integers(0, len(ANNS) - 1), "value": st.one_of(st.none(), _value())}),
         st.fixed_dictionaries({"k": st.sampled_from(["local", "sdeep", "other", "stuple"]), "attrs": st.lists(_names(), min_size=2, max_size=2)}),
         _str(),
+        # definitions nested in __init__: not module/class-level bindings (Griffe nevertheless walks them)
+        st.fixed_dictionaries({"k": st.just("idef"), "form": st.sampled_from(["def", "ovl", "class", "import", "prop", "decorated"]), "attrs": st.lists(_names(), min_size=2, max_size=2)}),
     ]
     if depth <= 0:
         return st.one_of(*simple)
@@ -227,7 +233,7 @@ def _def(scope: str):
             "k": st.just("def"),
             "name": _names(),
             "async": st.sampled_from([False, False, False, True]),
-            "decs": st.lists(_dec(FUNC_DECOS_CLASS + ["cache", "unk"]), min_size=1, max_size=2),
+            "decs": st.lists(_dec(FUNC_DECOS_CLASS + ["cache", "unk", "selfsetter"]), min_size=1, max_size=2),
             "sig": st.integers(0, len(SIGS) + len(SIGS_ML) - 1),
             "ret": st.integers(0, len(RETS) - 1),
             "doc": _opt(_doc()),
@@ -251,6 +257,20 @@ def _def(scope: str):
     return st.one_of(plain, labelled, init)
 
 
+def _prop():
+    """A property group: getter followed by setter / deleter definitions of the same name."""
+    return st.fixed_dictionaries(
+        {
+            "k": st.just("prop"),
+            "name": _names(),
+            "getter": st.sampled_from(["property", "cached_property", "property", "plain"]),
+            "via": st.integers(0, 3),
+            "doc": _opt(_doc()),
+            "parts": st.lists(st.sampled_from(["setter", "deleter", "setter", "gap"]), min_size=1, max_size=3),
+        }
+    )
+
+
 def _ovl(scope: str):
     impl = _def("mod")  # implementation carries no property/static decorators
     return st.builds(
@@ -272,27 +292,32 @@ def weighted(*pairs):
     return st.one_of(*alts)
 
 
-def _block(scope: str, depth: int, direct: bool, rel: bool, max_size: int = 4):
+def _block(scope: str, depth: int, direct: bool, rel: int, max_size: int = 4):
     return st.lists(_stmt(scope, depth, direct, rel), min_size=0, max_size=max_size)
 
 
 _CACHE: dict = {}
 
 
-def _stmt(scope: str, depth: int, direct: bool, rel: bool):
+def _stmt(scope: str, depth: int, direct: bool, rel: int):
     key = (scope, depth, direct, rel)
     if key in _CACHE:
         return _CACHE[key]
     simple = [_assign(), _assign(), _ann(), _import(), _from(rel), _str(), _str(), _expr(), _unsup(), _def(scope), _def(scope)]
     if scope == "mod" and direct:
         simple += [_all(), _allaug()]
+    elif scope == "mod":
+        simple += [_all()]  # (re-)assignment of __all__ inside a block: exports must follow the surviving binding
+    if scope == "cls":
+        simple += [_prop()]
     if depth <= 0:
         out = st.one_of(*simple)
         _CACHE[key] = out
         return out
     inner = st.deferred(lambda: _block(scope, depth - 1, False, rel, 3))
     clsbody = st.deferred(lambda: _block("cls", depth - 1, True, rel, 5))
-    tests = ["tc", "ttc", "cond", "cond"] if direct else ["cond"]
+    # TYPE_CHECKING below another block / in an elif: the statement leaves the flag open there, everything else is judged
+    tests = ["tc", "ttc", "cond", "cond"] if direct else ["cond", "cond", "cond", "tc", "ttc"]
     compound = [
         st.fixed_dictionaries(
             {
@@ -311,6 +336,7 @@ def _stmt(scope: str, depth: int, direct: bool, rel: bool):
                 "body": inner,
                 "elifs": st.one_of(st.just([]), st.just([]), st.lists(inner, min_size=1, max_size=1)),
                 "orelse": _opt(inner),
+                "eliftc": st.sampled_from([False, False, False, True]),
             }
         ),
         st.fixed_dictionaries(
@@ -325,6 +351,11 @@ def _stmt(scope: str, depth: int, direct: bool, rel: bool):
         st.fixed_dictionaries({"k": st.just("for"), "var": st.one_of(st.none(), _names()), "body": inner, "orelse": _opt(inner, 4)}),
         st.fixed_dictionaries({"k": st.just("with"), "var": st.one_of(st.none(), _names()), "body": inner, "orelse": st.none()}),
         _ovl(scope),
+        # not among the blocks the property names (if/try/for/with): presence of what they bind is left open
+        st.one_of(
+            st.fixed_dictionaries({"k": st.just("while"), "body": inner, "orelse": _opt(inner, 4)}),
+            st.fixed_dictionaries({"k": st.just("match"), "cases": st.lists(inner, min_size=1, max_size=3)}),
+        ),
     ]
     out = weighted(*[(x, 1) for x in simple], (compound[0], 3), (compound[1], 3), *[(x, 1) for x in compound[2:]])
     _CACHE[key] = out
@@ -336,9 +367,9 @@ def modules(max_depth: int = 3, entry_load_ratio: int = 8):
 
     @st.composite
     def build(draw):
-        layout = draw(st.sampled_from(["top", "top", "top", "sub", "sub", "init"]))
+        layout = draw(st.sampled_from(["top", "top", "top", "sub", "sub", "init", "deep", "subinit"]))
         entry = draw(st.sampled_from(["visit"] * (entry_load_ratio - 1) + ["load"]))
-        rel = layout != "top"
+        rel = {"top": 0, "sub": 1, "init": 1, "deep": 2, "subinit": 2}[layout]
         body = draw(st.lists(_stmt("mod", max_depth, True, rel), min_size=1, max_size=7))
         return {
             "kind": "mod",
@@ -416,9 +447,12 @@ class _R:
         if stmt and stmt not in self.prelude:
             self.prelude.append(stmt)
 
-    def dec_lines(self, decs: list, ind: str) -> list[str]:
+    def dec_lines(self, decs: list, ind: str, name: str = "") -> list[str]:
         out = []
         for dec in decs:
+            if dec["d"] in SELF_DECOS:
+                out.append(f"{ind}@{name}.{dec['d'][4:]}")
+                continue
             text, imp = _use_name(dec["d"], dec["via"])
             self.need(imp)
             args = DECOS[dec["d"]][3]
@@ -449,7 +483,7 @@ class _R:
         return out
 
     def deflines(self, s: dict, ind: str, scope: str, decs_extra: list[str] | None = None, force_stub: bool = False) -> list[str]:
-        out = list(decs_extra or []) + self.dec_lines(s["decs"], ind)
+        out = list(decs_extra or []) + self.dec_lines(s["decs"], ind, s["name"])
         kw = "async def" if s["async"] else "def"
         first = "self" if scope == "cls" else ""
         sig_i = s["sig"]
@@ -483,6 +517,9 @@ class _R:
             body.extend([f"{ind2}a = 1", f"{ind2}b: int = 2", f'{ind2}"""not an attribute docstring"""'])
         elif tail == "nested":
             body.extend([f"{ind2}def a():", f"{ind2}    c = 3", f"{ind2}class B:", f"{ind2}    x = 4", f"{ind2}import os"])
+        elif tail == "nested_ovl":
+            self.need("import typing")
+            body.extend([f"{ind2}@typing.overload", f"{ind2}def a(q): ...", f"{ind2}def a(q):", f"{ind2}    return q"])
         elif tail == "inline":
             body.append(f"{ind2}...")
         elif tail in ("pass", "...", "return 1"):
@@ -520,6 +557,25 @@ class _R:
         if k == "str":
             return render_doc(s["doc"], ind)
         ind2 = ind + IND
+        if k == "idef":
+            a, b = s["attrs"]
+            form = s["form"]
+            if form == "def":
+                return [f"{ind}def {a}(q):", f"{ind2}{b} = 1", f"{ind2}self.{b} = 2"]
+            if form == "ovl":
+                self.need("import typing")
+                return [f"{ind}@typing.overload", f"{ind}def {a}(q): ...", f"{ind}def {a}(q):", f"{ind2}return q"]
+            if form == "class":
+                return [f"{ind}class {a}:", f"{ind2}{b} = 1", f"{ind2}def __init__(self):", f"{ind2}    self.{b} = 1"]
+            if form == "import":
+                return [f"{ind}import os as {a}", f"{ind}from pkg import {b}"]
+            if form == "prop":
+                return [f"{ind}@property", f"{ind}def {a}(self): ...", f"{ind}@{a}.setter", f"{ind}def {a}(self, v): ..."]
+            if form == "decorated":
+                self.need("import functools")
+                self.need("import dataclasses")
+                return [f"{ind}@functools.cache", f"{ind}def {a}(): ...", f"{ind}@dataclasses.dataclass", f"{ind}class {b}:", f"{ind2}x: int = 1"]
+            raise ValueError(form)
         if k == "if":
             out = [f"{ind}if cond:"] + self.iblock(s["body"], ind2)
             if s["orelse"] is not None:
@@ -558,6 +614,38 @@ class _R:
             # the implementation never carries decorators that change its kind
             impl["decs"] = [d for d in impl["decs"] if d["d"] in FUNC_DECOS_ANY]
             out.extend(self.deflines(impl, ind, scope))
+            return out
+        if k == "prop":
+            name = s["name"]
+            out = []
+            if s["getter"] != "plain":
+                text, imp = _use_name(s["getter"], s["via"])
+                self.need(imp)
+                out.append(f"{ind}@{text}")
+            out.append(f"{ind}def {name}(self):")
+            if s["doc"]:
+                out.extend(render_doc(s["doc"], ind2))
+            out.append(f"{ind2}return 1")
+            for part in s["parts"]:
+                if part == "gap":
+                    out.append(f"{ind}gap_{name} = 1")
+                elif part == "setter":
+                    out += [f"{ind}@{name}.setter", f"{ind}def {name}(self, value):", f"{ind2}self._v = value"]
+                else:
+                    out += [f"{ind}@{name}.deleter", f"{ind}def {name}(self): ..."]
+            return out
+        if k == "while":
+            out = [f"{ind}while cond:"] + self.block(s["body"], ind2, scope)
+            if s["orelse"] is not None:
+                out += [f"{ind}else:"] + self.block(s["orelse"], ind2, scope)
+            return out
+        if k == "match":
+            pats = ["1", "[p0, *p1]", "_"]
+            out = [f"{ind}match subject:"]
+            n = len(s["cases"])
+            for i, c in enumerate(s["cases"]):
+                pat = "_" if i == n - 1 and n > 1 else pats[i % 2]
+                out += [f"{ind2}case {pat}:"] + self.block(c, ind2 + IND, scope)
             return out
         if k == "class":
             out = self.dec_lines(s["decs"], ind)
@@ -645,7 +733,11 @@ class _R:
                 self.need("import typing")
             out = [f"{ind}if {test}:"] + self.block(s["body"], ind2, scope)
             for e in s["elifs"]:
-                out += [f"{ind}elif other_cond:"] + self.block(e, ind2, scope)
+                if s.get("eliftc"):
+                    self.need("from typing import TYPE_CHECKING")
+                    out += [f"{ind}elif TYPE_CHECKING:"] + self.block(e, ind2, scope)
+                else:
+                    out += [f"{ind}elif other_cond:"] + self.block(e, ind2, scope)
             if s["orelse"] is not None:
                 out += [f"{ind}else:"] + self.block(s["orelse"], ind2, scope)
             return out
